@@ -76,7 +76,7 @@ def engine(ck, pid, kinds, n_quick=40, n_thorough=400, gen_kw=None, mc=True):
             _judge(ck, pid, kinds, binary, wit, "goal-witness")
         ck.extra["goal_witnesses_replayed"] = len(wit)
     # (A3) directed: the lock word of a node read by two membership operations before either writes it
-    _judge(ck, pid, kinds, binary, [ringlib.lock_word_race()], "directed")
+    _judge(ck, pid, kinds, binary, [ringlib.lock_word_race(), ringlib.stabilize_while_leaver_holds_own_lock()], "directed")
     # (B/C) seeded controlled schedules
     n = n_thorough if ck.thorough else n_quick
     import random as _random
